@@ -5,7 +5,7 @@ from .. import core, values
 
 ID = 'C14'
 LEVEL = 'fault_enumeration'
-RULE = ('case = (tree of instrumented objects FNode/FNode2/FLazySub (FNode2: printer without trailing_comment; FLazySub: printer '
+RULE = ('case = (tree (nodes also held by struct sequences, namedtuples, deques, namespaces and OrderedDicts) of instrumented objects FNode/FNode2/FLazySub/FDictNode (FDictNode: a dict subclass with the built-in repr; FNode2: printer without trailing_comment; FLazySub: printer '
         'registered by name for its base class, exception messages contain braces and percent signs) mixed with lists, '
         'tuples, dict values, comments, trailing comments and second references to already printed nodes (sharing), fault plan). Fault enumeration: for every ordered tree shape '
         'with <= 5 instrumented nodes x 4 edge-wrapper patterns x 3 class patterns, each node in turn (= each printer '
@@ -21,7 +21,11 @@ ASSUMPTIONS = ['the harness printers use build_fncall/pretty_python_value as a u
 BUDGET = {'quick': {'random': 5000, 'shards': 16}, 'thorough': {'random': 200000, 'shards': 16}}
 
 EXCS = ['ValueError', 'TypeError', 'KeyError', 'AttributeError', 'RuntimeError', 'ZeroDivisionError', 'Injected']
-WRAPS = ['direct', 'list', 'dictval', 'tcmt', 'cmt', 'tuple']
+WRAPS = ['direct', 'list', 'dictval', 'tcmt', 'cmt', 'tuple', 'struct', 'ntuple', 'deque', 'ns', 'odict']
+import collections as _c
+import time as _time
+import types as _types
+Pt = _c.namedtuple('Pt', 'x y')
 
 
 def build(r, nodes, done=None):
@@ -32,8 +36,8 @@ def build(r, nodes, done=None):
     if done is None:
         done = []
     t = r[0]
-    if t in ('fn', 'fn2', 'fn3'):
-        n = {'fn': faults.FNode, 'fn2': faults.FNode2, 'fn3': faults.FLazySub}[t](r[1], [])
+    if t in ('fn', 'fn2', 'fn3', 'fn4'):
+        n = {'fn': faults.FNode, 'fn2': faults.FNode2, 'fn3': faults.FLazySub, 'fn4': faults.FDictNode}[t](r[1], [])
         nodes.append(n)
         n.children = [build(c, nodes, done) for c in r[2]]
         done.append(n)
@@ -46,6 +50,16 @@ def build(r, nodes, done=None):
         return tuple(build(x, nodes, done) for x in r[1])
     if t == 'dict':
         return {k: build(v, nodes, done) for k, v in r[1]}
+    if t == 'struct':       # a struct sequence: its printer reads the field names from the repr and may fall back to a plain tuple
+        return _time.struct_time((build(r[1], nodes, done), 1, 2, 3, 4, 5, 6, 7, 8))
+    if t == 'ntuple':
+        return Pt(build(r[1], nodes, done), 1)
+    if t == 'deque':
+        return _c.deque([build(r[1], nodes, done), 1], maxlen=r[2])
+    if t == 'ns':
+        return _types.SimpleNamespace(a=build(r[1], nodes, done), b=1)
+    if t == 'odict':
+        return _c.OrderedDict([('k', build(r[1], nodes, done)), ('z', 1)])
     if t == 'cmt':
         return comment(build(r[2], nodes, done), r[1])
     if t == 'tcmt':
@@ -68,6 +82,16 @@ def replace(obj, victims):
         return n
     if isinstance(obj, list):
         return [replace(x, victims) for x in obj]
+    if isinstance(obj, _time.struct_time):
+        return _time.struct_time(tuple(replace(x, victims) for x in obj))
+    if isinstance(obj, Pt):
+        return Pt(*[replace(x, victims) for x in obj])
+    if isinstance(obj, _c.deque):
+        return _c.deque([replace(x, victims) for x in obj], maxlen=obj.maxlen)
+    if isinstance(obj, _types.SimpleNamespace):
+        return _types.SimpleNamespace(**{k: replace(v, victims) for k, v in obj.__dict__.items()})
+    if isinstance(obj, _c.OrderedDict):
+        return _c.OrderedDict((k, replace(v, victims)) for k, v in obj.items())
     if isinstance(obj, tuple):
         return tuple(replace(x, victims) for x in obj)
     if isinstance(obj, dict):
@@ -92,6 +116,10 @@ def _wrap(child, how, i):
         return ['cmt', 'note %d' % i, child]
     if how == 'tuple':
         return ['tuple', [child]]
+    if how in ('struct', 'ntuple', 'ns', 'odict'):
+        return [how, child]
+    if how == 'deque':
+        return ['deque', child, 5 if i % 2 else None]
 
 
 def _shapes(n):
@@ -114,7 +142,7 @@ def _shapes(n):
 def _instantiate(shape, wrap_pat, kind_pat, counter):
     i = counter[0]
     counter[0] += 1
-    kind = 'fn' if kind_pat == 0 else 'fn2' if kind_pat == 1 else ('fn', 'fn3', 'fn2')[i % 3]
+    kind = 'fn' if kind_pat == 0 else 'fn2' if kind_pat == 1 else ('fn', 'fn3', 'fn2', 'fn4')[i % 4]
     kids = []
     for ch in shape:
         c = _instantiate(ch, wrap_pat, kind_pat, counter)
@@ -179,13 +207,15 @@ def strategy(tier):
         wrapped = st.one_of(ch, ch, st.tuples(st.sampled_from(['c1', 'c two words', 'x\ny']), ch).map(lambda p: ['cmt', p[0], p[1]]),
                             st.tuples(st.sampled_from(['t1', 't two']), ch).map(lambda p: ['tcmt', p[0], p[1]]))
         return st.one_of(
-            st.tuples(st.sampled_from(['fn', 'fn', 'fn2', 'fn3']), tags, st.lists(wrapped, max_size=3)).map(list),
-            st.tuples(st.sampled_from(['fn', 'fn', 'fn2', 'fn3']), tags, st.lists(wrapped, max_size=3)).map(list),
+            st.tuples(st.sampled_from(['fn', 'fn', 'fn2', 'fn3', 'fn4']), tags, st.lists(wrapped, max_size=3)).map(list),
+            st.tuples(st.sampled_from(['fn', 'fn', 'fn2', 'fn3', 'fn4']), tags, st.lists(wrapped, max_size=3)).map(list),
             st.lists(wrapped, max_size=3).map(lambda xs: ['list', xs]),
             st.lists(wrapped, max_size=2).map(lambda xs: ['tuple', xs]),
+            st.tuples(st.sampled_from(['struct', 'ntuple', 'ns', 'odict']), ch).map(list),
+            st.tuples(ch, st.sampled_from([None, 5])).map(lambda p: ['deque', p[0], p[1]]),
             st.lists(st.tuples(st.sampled_from(['k', 'kk', 'key three']), wrapped).map(list), max_size=3, unique_by=lambda p: p[0]).map(lambda kv: ['dict', kv]),
         )
-    tree = st.recursive(st.one_of(leaf, st.tuples(st.sampled_from(['fn', 'fn2', 'fn3']), tags, st.just([])).map(list)), ext, max_leaves=10)
+    tree = st.recursive(st.one_of(leaf, st.tuples(st.sampled_from(['fn', 'fn2', 'fn3', 'fn4']), tags, st.just([])).map(list)), ext, max_leaves=10)
     fault = st.tuples(st.integers(0, 12), st.sampled_from(EXCS), st.sampled_from(['before', 'after'])).map(list)
     nth_fault = st.tuples(st.integers(0, 12), st.sampled_from(EXCS), st.sampled_from(['before', 'after']), st.sampled_from([1, 2])).map(list)
     faulty = st.fixed_dictionaries({'tree': tree, 'faults': st.one_of(st.lists(fault, min_size=1, max_size=2), st.lists(nth_fault, min_size=1, max_size=1))})
@@ -215,8 +245,10 @@ def _has_sibling(root, victim):
         o = unwrap_comments(o)[0]
         if isinstance(o, faults.FNode):
             return [unwrap_comments(c)[0] for c in o.children] + ['tag']
-        if isinstance(o, (list, tuple)):
+        if isinstance(o, (list, tuple, _c.deque)):
             return [unwrap_comments(c)[0] for c in o]
+        if isinstance(o, _types.SimpleNamespace):
+            return [unwrap_comments(c)[0] for c in o.__dict__.values()]
         if isinstance(o, dict):
             return [unwrap_comments(c)[0] for c in o.values()]
         return []
@@ -303,7 +335,7 @@ def oracle(case):
     if (len(fw) == 0) != (ncalls == 0) or len(fw) > ncalls:
         return core.viol('warning-count', '%d fallback warnings for %d failing printer invocations' % (len(fw), ncalls), labels)
     for n in invoked:
-        name = {'FNode2': 'ppv.faults.pretty_fnode2', 'FLazySub': 'ppv.faults.pretty_flazy'}.get(type(n).__name__, 'ppv.faults.pretty_fnode')
+        name = {'FNode2': 'ppv.faults.pretty_fnode2', 'FLazySub': 'ppv.faults.pretty_flazy', 'FDictNode': 'ppv.faults.pretty_fdict'}.get(type(n).__name__, 'ppv.faults.pretty_fnode')
         if not any(name + ',' in w or name + ' ' in w or name in w.split() for w in fw) and not any(name in w for w in fw):
             return core.viol('warning-does-not-name-printer', fw[0][:300], labels)
     again = values.pp(root, width=60)
